@@ -161,13 +161,13 @@ func c07Raw(data []byte) *h.Failure {
 	if rerr != nil {
 		return h.Failf("twkb/accepted-malformed", "UnmarshalTWKB accepts bytes the independent reader rejects (%v): %x", rerr, data)
 	}
-	// only inputs whose integers are all below 2^52 in magnitude are exactly representable
+	// only inputs whose integers are all below 2^48 in magnitude round-trip exactly (the property's own domain is |k| < 2^40)
 	small := true
 	var walk func(n codec.TWKBNode)
 	chk := func(ps [][]int64) {
 		for _, p := range ps {
 			for _, k := range p {
-				if k > 1<<52 || k < -(1<<52) {
+				if k > 1<<48 || k < -(1<<48) { // well inside float64's integer range: two roundings (k/10^p, then x10^p) must not add up to half a unit
 					small = false
 				}
 			}
@@ -195,7 +195,7 @@ func c07Raw(data []byte) *h.Failure {
 	// with a negative precision the decoded ordinate is k x 10^|p|: it too must stay below 2^52, or float64
 	// cannot carry it back to the same integer (found by the native fuzzer: k = 3.77e15 at precision -2)
 	for _, v := range m.AllOrdinates() {
-		if math.Abs(float64(v)) >= 1<<52 {
+		if math.Abs(float64(v)) >= 1<<48 {
 			small = false
 		}
 	}
